@@ -9,7 +9,7 @@
 From Coq Require Import ZArith Reals Bool List Ascii.
 From Flocq Require Import IEEE754.BinarySingleNaN IEEE754.PrimFloat.
 From AwVerif Require Import Base.Prelude Model.PyFloat Model.IsoTime Model.EventModel
-  Proofs.PyFloatFinite Proofs.PyFloatSpec Proofs.EventProofs.
+  Proofs.PyFloatFinite Proofs.PyFloatSpec Proofs.IsoTimeProofs Proofs.EventProofs.
 Open Scope Z_scope.
 Set Printing Width 100000.
 
@@ -35,11 +35,11 @@ Theorem C13_normalise : forall u off, 0 <= u <= y2100 -> off mod 1000 = 0 ->
 Proof. exact normalise_dt. Qed.
 Print Assumptions C13_normalise.
 
-(* the same for an ISO-8601 string that iso8601.parse_date reads as (u, off) *)
+(* the same for an ISO-8601 string that iso8601.parse_date (covered subset, Model/IsoTime.v)
+   reads as (u, off); its offsets are whole minutes, so no assumption on off *)
 Theorem C13_normalise_str : forall s u off, parse_iso s = Ok (u, off) ->
-  0 <= u <= y2100 -> off mod 1000 = 0 ->
-  set_timestamp (TsStr s) = Ok (floor_ms u).
-Proof. exact normalise_str. Qed.
+  0 <= u <= y2100 -> set_timestamp (TsStr s) = Ok (floor_ms u).
+Proof. exact normalise_str_any_offset. Qed.
 Print Assumptions C13_normalise_str.
 
 (* whatever the offset, it is the local time that is floored *)
@@ -53,11 +53,7 @@ Print Assumptions C13_normalise_general.
 Theorem C13_normalise_sub_ms_offset_refuted : exists u off,
   0 <= u <= y2100 /\ Z.abs off <= max_off /\
   exists t, set_timestamp (TsDt u off) = Ok t /\ t <> floor_ms u.
-Proof.
-  exists 1600000000000999, 1. split; [vm_compute; split; discriminate|].
-  split; [vm_compute; discriminate|]. exists 1600000000000999.
-  split; [exact (proj1 normalise_sub_ms_offset_witness)|]. vm_compute. discriminate.
-Qed.
+Proof. exact normalise_sub_ms_offset_refuted. Qed.
 Print Assumptions C13_normalise_sub_ms_offset_refuted.
 
 (* durations: a timedelta is kept, an int is that many seconds *)
@@ -92,14 +88,38 @@ Theorem C13_rebuild_from_event : forall e, ms_aligned (ts e) -> 0 <= ts e <= y21
 Proof. exact rebuild_id. Qed.
 Print Assumptions C13_rebuild_from_event.
 
+(* JSON round trip: Event applied to json.loads(e.to_json_str()) is e again, id included,
+   for millisecond-aligned instants 1970..2100 (what every constructed event holds) and
+   |duration| < 2^33 * 10^6 us.  The timestamp text goes through isoformat and the
+   iso8601 subset of Model/IsoTime.v; the duration through total_seconds() and
+   timedelta(seconds=float). *)
+Theorem C13_json_roundtrip : forall e,
+  ms_aligned (ts e) -> 0 <= ts e <= y2100 -> Z.abs (dur e) < 2 ^ 33 * 1000000 ->
+  json_roundtrip e = Ok e.
+Proof. exact json_roundtrip_ok. Qed.
+Print Assumptions C13_json_roundtrip.
+
+(* JSON shape: the timestamp is a string YYYY-MM-DDTHH:MM:SS[.fff000]+00:00, the duration a
+   finite number (the binary64 nearest to dur / 10^6), id and data are carried over *)
+Theorem C13_json_shape : forall e,
+  ms_aligned (ts e) -> 0 <= ts e <= y2100 -> Z.abs (dur e) < 2 ^ 33 * 1000000 ->
+  exists j, to_json e = Ok j /\ iso_utc_shape (j_ts j) = true /\
+            is_finite (Prim2B (j_dur j)) = true /\
+            B2R (Prim2B (j_dur j)) = RN (IZR (dur e) / 1000000) /\
+            j_id j = eid e /\ j_data j = data e.
+Proof. exact json_shape. Qed.
+Print Assumptions C13_json_shape.
+
+(* the text isoformat() prints reads back as the same instant *)
+Theorem C13_iso_text_roundtrip : forall t, 0 <= t <= y2100 ->
+  parse_iso (isoformat_utc t) = Ok (t, 0).
+Proof. exact iso_text_roundtrip. Qed.
+Print Assumptions C13_iso_text_roundtrip.
+
 (* the duration bound of the JSON round trip is sharp *)
 Theorem C13_json_roundtrip_unbounded_refuted : exists e,
   ms_aligned (ts e) /\ 0 <= ts e <= y2100 /\ exists e', json_roundtrip e = Ok e' /\ dur e' <> dur e.
-Proof.
-  exists (mkEvent None 1600000000000000 (2 ^ 33 * 1000000 + 1) 0).
-  split; [reflexivity|]. split; [vm_compute; split; discriminate|].
-  eexists. split; [exact json_roundtrip_huge_duration_witness|]. vm_compute. discriminate.
-Qed.
+Proof. exact json_roundtrip_unbounded_refuted. Qed.
 Print Assumptions C13_json_roundtrip_unbounded_refuted.
 
 (* Non-vacuity: an event given in zone +05:45 with a microsecond field that is not
